@@ -181,9 +181,10 @@ example : singleEv (fun i => getK ([0, 0, 0, 1/2, 1, 1, 1] : List ℚ) i) 7 2 1 
 /-! ## derivative rows -/
 
 /-- full statement (all derivative orders): row `k` of the A2.3 result is the `k`-th derivative
-by the derivative recursion.  Proved below for `k = 0` (`activeDeriv_row0`), for `k = 1`
-(`ders_row1_eq_cox`, from the loop-body lemma `ders1_eq_cox_partial`) and for `k > p` (`ders_rows_high_zero`); for `1 < k ≤ p` it is *decided per
-request* by the correspondence driver in exact rational arithmetic (`spec=ok`), not proved. -/
+by the derivative recursion.  **Proved** as `Pyiga.Props.C02.ders_eq_cox` in `Props/C02Full.lean`
+(Piegl-Tiller (2.10) `dN_eq_sum_a` + the invariant of the two-row buffers `ders_buffer_invariant`);
+the special cases `k = 0` (`activeDeriv_row0`), `k = 1` (`ders_row1_eq_cox`), `k > p`
+(`ders_rows_high_zero`) below were proved first and are kept. -/
 def ders_eq_cox_full : Prop :=
   ∀ (t : ℕ → K) (n p : ℕ) (u : K) (nd k r : ℕ), 2 * p + 2 ≤ n → Mono t n → t p ≤ u → u ≤ t (n - p - 1) →
     t (n - p - 2) < t (n - p - 1) → k ≤ nd → r ≤ p →
